@@ -404,11 +404,11 @@ Section SchedBasic.
     map (map fst) blobs = worker_paths pack.
 
   Lemma take_blobs_shaped pathss : forall (t : table T) blobs t',
-    take_blobs hc t pathss = (blobs, t') -> map (map fst) blobs = pathss.
+    take_blobs T hc t pathss = (blobs, t') -> map (map fst) blobs = pathss.
   Proof.
     induction pathss as [|ps rest IH]; intros t blobs t'; cbn [take_blobs].
     - intro H. injection H as <- _. reflexivity.
-    - destruct (take_blob T hc t ps) as [b t1] eqn:E1. destruct (take_blobs hc t1 rest) as [bs t2] eqn:E2.
+    - destruct (take_blob T hc t ps) as [b t1] eqn:E1. destruct (take_blobs T hc t1 rest) as [bs t2] eqn:E2.
       intro H. injection H as <- _. cbn [map]. f_equal; [|eapply IH; eauto].
       eapply C01Build.take_blob_fst; eauto.
   Qed.
